@@ -247,6 +247,8 @@ MUTANTS = [
     dict(prop="C16", name="ResultDict.__sub__ adds", file=RES_D, old="        return self + (-1) * other", new="        return self + other"),
     dict(prop="C16", name="K__Result.__add__ reversed order", file=RES_K, old="        return self.__class__(data=self.data_list + other.data_list,", new="        return self.__class__(data=other.data_list + self.data_list,"),
     dict(prop="C16", name="Transform.as_dict drops swap_axes", file=PSY, old='for k in ["conj", "factor", "transpose_axes", "swap_axes"]}', new='for k in ["conj", "factor", "transpose_axes"]}'),
+    dict(prop="C16", name="from_npz: inversion transform read for both slots when there are three energy axes", file=RES_E, old="            transformTR=transform_from_dict(res, 'transformTR'),", new="            transformTR=transform_from_dict(res, 'transformTR' if len(energ) < 3 else 'transformInv'),"),
+    dict(prop="C16", name="as_dict: rank stored as data.ndim - 1", file=RES_E, old="            rank=self.rank,\n            transformTR=self.transformTR.as_dict(),", new="            rank=self.data.ndim - 1,\n            transformTR=self.transformTR.as_dict(),"),
     dict(prop="C16", name="from_npz: comment not restored", file=RES_E, old="            comment = str(res['comment'])", new="            comment = str(res['comment']).split(chr(10))[0]"),
     dict(prop="C09", name="__mul__: TR and-ed instead of xor", file=PSY, old="return PointSymmetry((self.R @ other.R) * (self.iInv * other.iInv), self.TR != other.TR)", new="return PointSymmetry((self.R @ other.R) * (self.iInv * other.iInv), self.TR or other.TR)"),
     dict(prop="C09", name="__mul__: inversion sign dropped", file=PSY, old="return PointSymmetry((self.R @ other.R) * (self.iInv * other.iInv), self.TR != other.TR)", new="return PointSymmetry((self.R @ other.R) * (self.iInv), self.TR != other.TR)"),
